@@ -42,11 +42,13 @@ namespace GeographicLib {
 
   int UTMUPS::StandardZone(real lat, real lon, int setzone) {
     using std::isnan;           // Needed for Centos 7, ubuntu 14
+    using std::isfinite;
     if (!(setzone >= MINPSEUDOZONE && setzone <= MAXZONE))
       throw GeographicErr("Illegal zone requested " + Utility::str(setzone));
     if (setzone >= MINZONE || setzone == INVALID)
       return setzone;
-    if (isnan(lat) || isnan(lon)) // Check if lat or lon is a NaN
+    // Check if lat or lon is a NaN; AngNormalize(lon) is a NaN for lon = +/-inf
+    if (isnan(lat) || !isfinite(lon))
       return INVALID;
     if (setzone == UTM || (lat >= -80 && lat < 84)) {
       int ilon = int(floor(Math::AngNormalize(lon)));
